@@ -41,18 +41,22 @@ deriving Repr, DecidableEq, Inhabited
 
 def u64be (v : Int) : List Byte := beBytes 8 (wrapU 64 v)
 
+/-- the `f` of psf_binheader_writef goes through float32_le_write / float32_be_write, which leave the zeroed field
+    untouched when `fabs (in) < 1e-30` (0x0DA2425F is the largest binary32 below the double 1e-30) -/
+def wrF32 (b : Nat) : Nat := if b % 2 ^ 31 < 0x0DA24260 then 0 else b
+
 /-- wavlike_write_peak_chunk / aiff_write_header / caf_write_header: timestamp = the harness' pinned clock,
     CAF edit count 0.  `'t8'` in the WAV/AIFF format strings writes the low 32 bits of the 64-bit position. -/
 def chunkBytes (k : Kind) (ch : Nat) (ps : List Peak) : List Byte :=
   match k with
   | .wavLE => marker "PEAK" ++ u32 false (8 + 8 * ch) ++ u32 false 1 ++ u32 false 1000000000 ++
-      ps.flatMap fun p => u32 false (Float.f64to32 p.value) ++ u32 false p.position
+      ps.flatMap fun p => u32 false (wrF32 (Float.f64to32 p.value)) ++ u32 false p.position
   | .wavBE => marker "PEAK" ++ u32 true (8 + 8 * ch) ++ u32 true 1 ++ u32 true 1000000000 ++
-      ps.flatMap fun p => u32 true (Float.f64to32 p.value) ++ u32 true p.position
+      ps.flatMap fun p => u32 true (wrF32 (Float.f64to32 p.value)) ++ u32 true p.position
   | .aiff => marker "PEAK" ++ u32 true (8 + 8 * ch) ++ u32 true 1 ++ u32 true 1000000000 ++
-      ps.flatMap fun p => u32 true (Float.f64to32 p.value) ++ u32 true p.position
+      ps.flatMap fun p => u32 true (wrF32 (Float.f64to32 p.value)) ++ u32 true p.position
   | .caf => marker "peak" ++ u64be (4 + 12 * ch) ++ u32 true 0 ++
-      ps.flatMap fun p => u32 true (Float.f64to32 p.value) ++ u64be p.position
+      ps.flatMap fun p => u32 true (wrF32 (Float.f64to32 p.value)) ++ u64be p.position
 
 def rd64be (bs : List Byte) (off : Nat) : Nat := ofBE ((bs.drop off).take 8)
 
